@@ -136,6 +136,9 @@ inductive Stmt
   | updateVolumes (ds : List (Nat × Int))
   /-- `InsertTransaction`; `id = none`: `nextval(transaction_id_l)`; vals = [id] -/
   | insertTx (l ref : Nat) (id : Option Nat)
+  /-- `UpsertAccounts`: existing accounts (per the statement's snapshot) are left alone (the UPDATE arm
+      only fires when first_usage / metadata change); the others are INSERTed WITHOUT `ON CONFLICT` -/
+  | upsertAccounts (as : List Nat)
   /-- `pg_advisory_xact_lock(l)` of InsertLog (HASH_LOGS=SYNC) -/
   | advLockLog (l : Nat)
   /-- the INSERT of InsertLog; `sync`: the `set_log_hash` trigger is installed; vals = [id] -/
@@ -149,6 +152,9 @@ inductive Stmt
 
 inductive Err
   | uniqueRef | uniqueIK | uniqueTxId | uniqueLogId | deadlock | aborted
+  /-- 23505 on `accounts (ledger, address)`: the account was inserted by a transaction that committed
+      after this statement's snapshot -/
+  | uniqueAcct
   /-- 3B001: ROLLBACK TO / RELEASE of a savepoint that does not exist (an error like any other: aborts the block) -/
   | noSavepoint
   deriving DecidableEq, Repr
@@ -201,6 +207,8 @@ structure World where
   rev : Nat → Nat → Row Bool := fun _ _ => {}
   /-- `_system.ledgers.state = 'in-use'`, per ledger -/
   state : Nat → Row Bool := fun _ => {}
+  /-- `accounts`: (ledger, address) id ↦ row (contents are irrelevant here) -/
+  accts : Nat → Row Unit := fun _ => {}
   txs : List Tx := []
   logs : List Lg := []
   blocks : List Blk := []
@@ -230,6 +238,7 @@ def World.commitTx (w : World) (s : Sid) : World :=
     vols := fun k => (w.vols k).commit s
     rev := fun l t => (w.rev l t).commit s
     state := fun l => (w.state l).commit s
+    accts := fun a => (w.accts a).commit s
     txs := w.txs.map (fun t => if t.by_ = s then { t with com := true } else t)
     logs := w.logs.map (fun e => if e.by_ = s then { e with com := true } else e)
     revWins := w.revWins.map (fun e => if e.by_ = s then { e with com := true } else e)
@@ -250,6 +259,7 @@ def World.undo (w : World) (s : Sid) (keepOuter : Bool) : World :=
     vols := fun k => (w.vols k).abort s
     rev := fun l t => (w.rev l t).abort s
     state := fun l => if keepOuter then w.state l else (w.state l).abort s
+    accts := fun a => (w.accts a).abort s
     txs := w.txs.filter (fun t => t.com || t.by_ ≠ s)
     logs := w.logs.filter (fun e => e.com || e.by_ ≠ s)
     revWins := w.revWins.filter (fun e => e.com || e.by_ ≠ s)
@@ -397,6 +407,22 @@ def insLog (w : World) (s : Sid) (l ik hash : Nat) (sync : Bool) (id : Option Na
       logs := w.logs ++ [{ l := l, id := nid, ik := ik, hash := hash, prev := prev, tx := tx, by_ := s, com := false }] }
       { vals := [nid] }
 
+inductive AccV
+  | wait (t : Sid)
+  | dup
+
+/-- what the plain INSERT of `UpsertAccounts` meets for the accounts its snapshot did not see:
+    a committed row (inserted by a transaction that committed in between) → unique violation;
+    another session's in-progress insert → wait -/
+def accVerdict (w : World) (s : Sid) (vis : List Nat) : List Nat → Option AccV
+  | [] => none
+  | a :: r =>
+    if vis.contains a then accVerdict w s vis r
+    else if (w.accts a).com.isSome then some .dup
+    else match (w.accts a).heldByOther s with
+      | some t => some (.wait t)
+      | none => accVerdict w s vis r
+
 /-- The effect of one statement of session `s` (not transaction control, which `step` handles). -/
 def exec (w : World) (s : Sid) : Stmt → Att
   | .begin | .commit | .rollback | .savepoint | .release | .rollbackTo => .done w {}
@@ -441,6 +467,17 @@ def exec (w : World) (s : Sid) : Stmt → Att
     .done w { vals := [maxId ((w.logs.filter (fun e => e.l = l && visLog s e)).map (·.id))] }
   | .getBalances ps => getBal w s ps (snapOf w s ps)
   | .updateVolumes ds => updVol w s ds
+  | .upsertAccounts as =>
+    -- the statement's snapshot (taken when it was first issued): the accounts it sees exist
+    let vis := match (w.sess s).snap with
+      | some v => v
+      | none => as.filter (fun a => (w.accts a).visible s)
+    match accVerdict w s vis as with
+    | some (.wait t) => .blocked t
+    | some .dup => .failed w .uniqueAcct
+    | none =>
+      .done { w with accts := fun a =>
+        if as.contains a && !vis.contains a then { com := none, own := some s, pen := some () } else w.accts a } {}
   | .insertTx l ref id => insTx w s l ref id
   | .insertLog l ik hash sync id tx => insLog w s l ik hash sync id tx
   | .revertUpdate l tx guarded =>
@@ -514,6 +551,7 @@ def stepR (w : World) (s : Sid) : World × StepRes :=
           else
             let snap := match st, x.snap with
               | .getBalances ps, none => some (snapOf w s ps)
+              | .upsertAccounts as, none => some (as.filter (fun a => (w.accts a).visible s))
               | _, sn => sn
             (w.setSess s (fun x => { x with snap := snap, waitsFor := some t }), .blocked)
 
